@@ -422,7 +422,15 @@ def judge_net(ctx, trace, what):
         ctx.violation(sig, {"what": "abstract predicate %s false on the real network.Server (%s scenario %s)" % (w, what, events[s].get("sc")),
                             "judge": c, "scenario": events[s], "history": compact(events[s:li + 1])})
     if bad_harness:
-        raise vlib.Inconclusive("the harness contradicts itself in %d scenario(s), first: %s" % (len(bad_harness), json.dumps(bad_harness[0])[:600]))
+        # real TCP and a real server: a rare scenario in which the harness's own bookkeeping disagrees with what it observes (a
+        # block still in flight at the end barrier) is dropped and recorded; more than a handful means the harness is broken
+        nsc = max(1, len(set(starts)))
+        ctx.extra["net_scenarios_dropped_self_contradiction"] = len(bad_harness)
+        for bh in bad_harness[:3]:
+            if len(ctx.spec_drift) < 20:
+                ctx.spec_drift.append({"part": PART, "harness_self_contradiction": bh[1], "scenario": bh[0]})
+        if len(bad_harness) > max(2, nsc // 200):
+            raise vlib.Inconclusive("the harness contradicts itself in %d of %d scenario(s), first: %s" % (len(bad_harness), nsc, json.dumps(bad_harness[0])[:600]))
     # responsive peers the node dropped (not forbidden, but it shrinks what is judged): information
     lost = 0
     for i, e in enumerate(events):
